@@ -23,7 +23,10 @@ RULE = (
     "queried with boundary strings derived from it; every parse_uri/compress/is_uri return is compared with a "
     "linear-scan longest-prefix model, and the same record set is rebuilt in other permutations (all of them up "
     "to 3 records, sampled above) to compare answers; every 16th case is a map of 20-80 records whose URI prefixes form a "
-    "deep random tree; in every second case the record set is also registered step by "
+    "deep random tree; in addition a bounded world is enumerated: every assignment of at most 3 of the 15 strings over "
+    "{a, b} of length <= 3 (the empty string included) to at most 3 records as canonical URI prefix or synonym, each asked "
+    "every string over {a, b} of length <= 4 (thorough: the whole world, coverage.small_world_exhaustive; quick: every "
+    "8th chunk); in every second case the record set is also registered step by "
     "step (URI synonyms sometimes arriving later through a merge) while the same boundary strings are asked before and "
     "after every registration. A key = overlap-forest shape + query class + build "
     "method; non-trivial = at least 2 registered prefixes match the query (a real longest-match decision) or "
@@ -48,8 +51,70 @@ def qclass(sp, q, allu):
     return None
 
 
+# ---- bounded-exhaustive small world ------------------------------------------------------------------------------
+# every way of giving at most 3 of the 15 strings over {a, b} of length <= 3 (the empty one included) to at most 3
+# records as canonical URI prefix or URI synonym, asked every string over {a, b} of length <= 4: all overlap lattices
+# that three URI prefixes over a binary alphabet can form
+SMALL_U = [""] + ["".join(t) for k in (1, 2, 3) for t in itertools.product("ab", repeat=k)]
+SMALL_Q = [""] + ["".join(t) for k in (1, 2, 3, 4) for t in itertools.product("ab", repeat=k)]
+
+
+def _partitions(items):
+    if not items:
+        yield []
+        return
+    first, rest = items[0], items[1:]
+    for part in _partitions(rest):
+        yield [[first]] + part
+        for i in range(len(part)):
+            yield part[:i] + [[first] + part[i]] + part[i + 1:]
+
+
+def small_world():
+    """All (tuple of records) in the bounded space; a record = (first = canonical URI prefix, rest = synonyms)."""
+    out = []
+    for k in (1, 2, 3):
+        for subset in itertools.combinations(SMALL_U, k):
+            for part in _partitions(list(subset)):
+                # each block: every choice of canonical element
+                for canon in itertools.product(*[range(len(b)) for b in part]):
+                    recs = []
+                    for i, (b, c) in enumerate(zip(part, canon)):
+                        recs.append(spec.Rec(f"p{i}", b[c], (), tuple(x for j, x in enumerate(b) if j != c), None))
+                    out.append(tuple(recs))
+    return out
+
+
+_SMALL = None
+SMALL_CHUNK = 150
+
+
+def n_small_chunks():
+    global _SMALL
+    if _SMALL is None:
+        _SMALL = small_world()
+    return -(-len(_SMALL) // SMALL_CHUNK)
+
+
+def small_world_case(ctx, g):
+    api = ctx.api
+    world = _SMALL
+    for recs in world[g * SMALL_CHUNK:(g + 1) * SMALL_CHUNK]:
+        c = api.Converter([gen.mk_record(api, r) for r in recs])
+        sp = spec.SpecConverter(recs, ":")
+        for q in SMALL_Q:
+            call(c.parse_uri, q, return_none=True)
+            call(c.compress, q)
+            call(c.is_uri, q)
+        probe.S.counters["wl:small-world-converters"] += 1
+        probe.note_key(f"small:{gen.overlap_shape(recs)}", len(recs) >= 2 or len(spec.all_u(recs[0])) >= 2)
+    probe.evaluated("order-independence", 0)
+
+
 def run_case(ctx, g, rng):
     api = ctx.api
+    if g < n_small_chunks() and (ctx.tier == "thorough" or g % 8 == 0):
+        small_world_case(ctx, g)
     d = rng.choice(gen.DELIMS)
     if g % 16 == 15:
         return big_map_case(ctx, g, rng, d)
@@ -181,3 +246,13 @@ def big_map_case(ctx, g, rng, d):
     probe.S.counters["wl:big-maps"] += 1
     probe.S.counters["wl:big-maps-deepest-nesting"] = max(probe.S.counters["wl:big-maps-deepest-nesting"], deepest)
     probe.evaluated("order-independence", 0)
+
+
+def EXHAUSTIVE(tier, counters):
+    n = counters.get("wl:small-world-converters", 0)
+    total = len(_SMALL) if _SMALL is not None else len(small_world())
+    return {
+        "small_world_exhaustive": n == total,
+        "explanation": f"{n} of {total} converters of the bounded world (<= 3 URI prefixes over {{a,b}}^<=3 in <= 3 records) built and asked all {len(SMALL_Q)} strings over {{a,b}}^<=4; "
+                       "random cases beyond that are sampling",
+    }
